@@ -70,7 +70,7 @@ def run(c):
     def compare(obs, tag):
         """Evaluate model and oracle inside Coq on the observed cases; returns number of disagreements."""
         direct = [o for o in obs if o["k"] == "direct"]
-        engine = [o for o in obs if o["k"] == "engine"]
+        engine = [o for o in obs if o["k"] in ("engine", "comment")]
         # panics are failures of the property outright
         for o in direct:
             c.count()
@@ -85,10 +85,15 @@ def run(c):
             elif "text" in o and o["text"] != "":
                 c.nontriv(("engine", classify(len(o["text"]), o["L"] or 60), len(o["text"]), o["L"]))
         dcases = [o for o in direct if not o.get("panic")]
-        ecases = [o for o in engine if not o.get("panic") and "msg" in o and o.get("text", "") != ""]
-        for o in engine:
-            if not o.get("panic") and o.get("text", "") == "" and o.get("nrep", 0) != 0 and "msg" not in o:
-                pass
+        ecases = [o for o in engine if not o.get("panic") and "msg" in o and (o.get("text", "") != "" or o["k"] == "comment")]
+        for o in obs:
+            if o["k"] == "count":
+                c.count()
+                if o.get("panic"):
+                    c.fail("oracle", "Run panics", input={"TruncateLen": o["L"]}, observed=o["panic"], expected="no panic")
+                elif str(o["nrep"]) != o["msg"]:
+                    c.fail("oracle", "a matching site produced no report (or an extra one)", input={"TruncateLen": o["L"]},
+                           observed={"reports": o["nrep"]}, expected="%s reports: one per probe call and per //c15: comment" % o["msg"])
         pre = ["From Coq Require Import List ZArith Bool.",
                "From RG.Base Require Import Outcome GoInt GoSlice.",
                "From RG.Engine Require Import TruncateSpec.",
@@ -112,18 +117,18 @@ def run(c):
                 src.append("Definition bad_model : list Z := [].")
             src.append("Definition bad_oracle := map (fun c => fst (fst (fst c))) (filter (fun c => match c with (i, n, L, r) => "
                        "if L =? 0 then false else negb (opt_ok (shown_oracle (mk (Z.to_nat n)) L) r) end) dcases).")
-            src.append("Definition ecases : list (Z * bytes * Z * bytes * bytes) := [")
+            src.append("Definition ecases : list (Z * bytes * Z * bytes * bytes * bool) := [")
             # message template is V=$x;W=$$;  -> shown(x) and shown(whole match)
-            src.append(";\n".join("(%d, %s, %d, %s, %s)" % (i, coq_bytes(o["text"].encode()), o["L"], coq_bytes(o["msg"].encode()),
-                                                            coq_bytes(o["sugg"].encode())) for i, o in esh))
+            src.append(";\n".join("(%d, %s, %d, %s, %s, %s)" % (i, coq_bytes(o["text"].encode()), o["L"], coq_bytes(o["msg"].encode()),
+                                                                coq_bytes(o["sugg"].encode()), "true" if o["k"] == "comment" else "false") for i, o in esh))
             src.append("].")
-            src.append("Definition whole (t : bytes) : bytes := [112;114;111;98;101;40] ++ t ++ [41].")
-            src.append("Definition exp_msg (t : bytes) (L : Z) : option bytes := match shown_oracle t L, shown_oracle (whole t) L with "
+            src.append("Definition whole (cm : bool) (t : bytes) : bytes := if cm then [47;47;99;49;53;58] ++ t else [112;114;111;98;101;40] ++ t ++ [41].")
+            src.append("Definition exp_msg (cm : bool) (t : bytes) (L : Z) : option bytes := match shown_oracle t L, shown_oracle (whole cm t) L with "
                        "Some a, Some b => Some ([86;61] ++ a ++ [59;87;61] ++ b ++ [59]) | _, _ => None end.")
-            src.append("Definition bad_engine := map (fun c => fst (fst (fst (fst c)))) (filter (fun c => match c with (i, t, L, m, s) => "
-                       "negb (opt_ok (exp_msg t L) m) || negb (bytes_eqb s t) end) ecases).")
+            src.append("Definition bad_engine := map (fun c => fst (fst (fst (fst (fst c))))) (filter (fun c => match c with (i, t, L, m, s, cm) => "
+                       "negb (opt_ok (exp_msg cm t L) m) || negb (bytes_eqb s t) end) ecases).")
             if gen_ok:
-                src.append("Definition eff_bad := filter (fun L => negb (gen_effective_len L =? eff_len L)) (map (fun c => snd (fst (fst c))) ecases).")
+                src.append("Definition eff_bad := filter (fun L => negb (gen_effective_len L =? eff_len L)) (map (fun c => snd (fst (fst (fst c)))) ecases).")
             else:
                 src.append("Definition eff_bad : list Z := [].")
             src.append("Definition RES := Eval vm_compute in (bad_model, bad_oracle, bad_engine, eff_bad).")
